@@ -218,6 +218,9 @@ pub assume_specification<F: FnOnce() -> Ordering> [ Ordering::then_with ] (a: Or
 pub assume_specification<T, U, F: FnOnce(T) -> U> [ Option::<T>::map_or ] (o: Option<T>, d: U, f: F) -> (r: U)
     requires o matches Some(x) ==> call_requires(f, (x,)),
     ensures match o { Some(x) => call_ensures(f, (x,), r), None => r == d };
+pub assume_specification<T, P: FnOnce(&T) -> bool> [ Option::<T>::filter ] (o: Option<T>, p: P) -> (r: Option<T>)
+    requires o matches Some(x) ==> call_requires(p, (&x,)),
+    ensures match o { Some(x) => (exists |b: bool| call_ensures(p, (&x,), b) && r == (if b { Some(x) } else { None::<T> })), None => r is None };
 /// `&[]` (an empty array literal unsized to a slice) views as the empty sequence - Seq extensionality the solver does not apply on
 /// its own when the value only flows into a spec function; broadcast in the modules that build to-be-signed / MACed structures
 pub broadcast proof fn lemma_empty_array_view(a: [u8; 0])
